@@ -698,7 +698,8 @@ def r_state(prog, tier):
                               'nodes were created before', construct='idread:' + unparse(n), line=n.lineno,
                               nontrivial=False))
             if isinstance(n, ast.Call) and isinstance(n.func, ast.Name) and n.func.id in ('id',) and n.func.id not in f.locals:
-                obs.append(Ob('R-STATE/G2', f.fq, 'no use of object addresses', False, '`%s`' % unparse(n),
+                obs.append(Ob('R-STATE/G2', f.fq, 'no use of object addresses', None, '`%s`: whether the address reaches any output '
+                              'is not followed' % unparse(n),
                               construct='id():' + unparse(n), line=n.lineno))
     # ---- G3 terminal-file caches
     for nm in ('insert_terminals', 'substitute_terminals'):
